@@ -276,6 +276,9 @@ def lf7(F, R):
         a = bits_of(bs[S["attr"]])
         forced = all(s2.reduce(a[i] ^ 1) == 0 for i in range(4))
         R.require(forced, fn, "lfn-attr", "fragment is recognised without all four LFN attribute bits (R|H|S|V) set", fn.loc(0))
+        # ... and whenever they are: the Some path carries no other condition on the slot's bytes (a fragment refused for its
+        # type byte, say, is taken for a short entry by the listing and resets the run it belongs to)
+        R.require(len(s2.cons) == 4, fn, "lfn-attr-only", "lfn_contents answers Some under %d independent bit conditions on the slot; the LFN attribute (four bits) must be the only one" % len(s2.cons), fn.loc(0))
 
 
 def _csd_bits(bytes_, hi, lo):
